@@ -206,7 +206,8 @@ pub fn run(seed: u64, ntraces: usize) {
             if t % 10 == 2 { dt(&mut g, ISSUE_COST); }                 // a second issuance before the first callback
             script.extend([23u64]);                                    // first issuance succeeds
             if t % 10 == 7 { script.extend([10u64, 2, 15, 10]); }       // pause, try step 3 and a remote deployment, unpause
-            else { script.extend([3u64, 23, 3, 3]); }                   // step 3, second issuance callback, step 3 again (twice)
+            else { script.extend([3u64, 23, 3, 3]); }
+            if t % 10 == 2 { script.extend([40u64, 19, 41, 40, 41]); }   // the minter approves a remote deployment, hands the role on, then the stale approval is used                   // step 3, second issuance callback, step 3 again (twice)
         }
         if t % 10 == 1 || t % 10 == 6 {
             // (1) an inbound link / deploy message for a token id that is already bound; (6) hub-wrapped inbound messages while paused
@@ -235,7 +236,7 @@ pub fn run(seed: u64, ntraces: usize) {
             let anyone = r.pick(&g.users).clone();
             let has_pending = !g.pend.is_empty();
             let scripted = !script.is_empty();
-            let a = if !script.is_empty() { script.remove(0) } else if has_pending && r.chance(1, 2) { 20 } else { *r.pick(&[0u64, 1, 2, 3, 3, 3, 4, 4, 4, 5, 5, 5, 6, 6, 6, 7, 7, 7, 7, 8, 9, 10, 11, 12, 12, 13, 14, 14, 15, 16, 17, 18]) };
+            let a = if !script.is_empty() { script.remove(0) } else if has_pending && r.chance(1, 2) { 20 } else { *r.pick(&[0u64, 1, 2, 3, 3, 3, 4, 4, 4, 5, 5, 5, 6, 6, 6, 7, 7, 7, 7, 8, 9, 10, 11, 12, 12, 13, 14, 14, 15, 16, 17, 18, 19, 19]) };
             let force_fail = a == 21; let force_props_ok = a == 22; let force_issue_ok = a == 23;
             let a = if a == 21 || a == 22 || a == 23 { 20 } else { a };
             // 1<a><v>: inbound message kind a (6, 7, 8) in routing variant v; 190..192: inbound link / deploy for an already bound token id (direct, hub-wrapped, deploy)
@@ -322,7 +323,7 @@ pub fn run(seed: u64, ntraces: usize) {
                                 deploy_payload(&tid2, b"Remote", b"RMT", 6, &minter)
                              } else { link_payload(&if fbound.is_some() || (ti.is_some() && r.chance(1, 3)) { tid.clone() } else { r.bytes(32) }, *r.pick(&[0u8, 2, 4]), b"0xsrc", if r.chance(1, 5) { b"bad" } else { &tok2[..] }, &if r.chance(1, 2) { vec![] } else { g.operator.to_vec() }) },
                     };
-                    let variant = if let Some(v) = fvar { v } else if g.paused && r.chance(1, 3) { 2 } else if r.chance(2, 3) { 0 } else { r.below(9) };
+                    let variant = if let Some(v) = fvar { v } else if g.paused && r.chance(1, 3) { 2 } else if r.chance(2, 3) { 0 } else { r.below(12) };
                     let (chain, src, payload): (Vec<u8>, Vec<u8>, Vec<u8>) = match variant {
                         1 => (b"avalanche".to_vec(), b"hub".to_vec(), inner.clone()),                                   // direct message from a hub-routed chain
                         2 => (b"axelar".to_vec(), b"axelar1hub".to_vec(), hub_wrap(b"avalanche", &inner, 4)),           // properly wrapped
@@ -331,6 +332,9 @@ pub fn run(seed: u64, ntraces: usize) {
                         5 => (b"ethereum".to_vec(), b"0xattacker".to_vec(), inner.clone()),                             // wrong source address
                         6 => (b"ethereum".to_vec(), b"0xITSeth".to_vec(), hub_wrap(b"avalanche", &inner, 4)),           // wrapper from a non-hub chain
                         7 => (b"ethereum".to_vec(), b"0xITSeth".to_vec(), { let mut p = inner.clone(); p[31] = 9; p }), // unknown message type
+                        9 => (b"unknown".to_vec(), vec![], inner.clone()),                                              // chain without a trusted address, empty source address
+                        10 => (b"polygon".to_vec(), if r.chance(1, 2) { vec![] } else { b"0xITSpoly".to_vec() }, inner.clone()),  // a chain that may have been removed
+                        11 => (b"axelar".to_vec(), b"axelar1hub".to_vec(), hub_wrap(if r.chance(1, 2) { b"unknown" } else { b"polygon" }, &inner, 4)),   // wrapped, original chain unknown / direct
                         _ => (b"ethereum".to_vec(), b"0xITSeth".to_vec(), inner.clone()),
                     };
                     let approve = variant != 8;
@@ -398,6 +402,39 @@ pub fn run(seed: u64, ntraces: usize) {
                         json!({"salt": hx(&salt), "dchain": hx(&dchain), "dtoken": hx(&dtok), "ty": ty, "params": hx(b"params")})); }
                 18 => { let caller = if r.chance(1, 2) { g.operator.clone() } else { anyone.clone() }; let na = r.pick(&g.users).clone();
                     let (ok, _, _) = g.its_tx("transferOp", &caller, "transferOperatorship", vec![na.to_vec()], 0, &[], json!({"a": hx(na.as_bytes())})); if ok { g.operator = na; } }
+                40 | 41 => { // directed: the nominated minter of the last native token approves (40) / the deployer uses (41) a remote deployment with a custom minter
+                    let Some(tk) = g.toks.iter().rev().find(|t| t.kind == "native" && t.minter.len() == 32) else { continue; };
+                    let (deployer, salt, minter) = (tk.deployer.clone(), tk.salt.clone(), tk.minter.clone());
+                    let (dchain, dm) = (b"ethereum".to_vec(), b"0xremoteminter".to_vec());
+                    if a == 40 { let caller = VMAddress::new(minter.clone().try_into().unwrap());
+                        g.its_tx("approveRemote", &caller, "approveDeployRemoteInterchainToken", vec![deployer.to_vec(), salt.clone(), dchain.clone(), dm.clone()], 0, &[],
+                            json!({"deployer": hx(deployer.as_bytes()), "salt": hx(&salt), "dchain": hx(&dchain), "dminter": hx(&dm)})); }
+                    else { g.its_tx("deployRemote", &deployer, "deployRemoteInterchainTokenWithMinter", vec![salt.clone(), minter.clone(), dchain.clone(), dm.clone()], 1000, &[],
+                            json!({"salt": hx(&salt), "minter": hx(&minter), "dchain": hx(&dchain), "dminter": Some(hx(&dm))})); }
+                }
+                19 => { // a user's direct call into one of the token managers (roles, mint, burn, flow limit)
+                    if g.toks.is_empty() { continue; }
+                    let ti = if scripted { g.toks.len() - 1 } else { r.below(g.toks.len() as u64) as usize };
+                    let (tm, ttok, tminter) = (g.toks[ti].tm.clone(), g.toks[ti].token.clone(), g.toks[ti].minter.clone());
+                    let role_holder = if tminter.len() == 32 && tminter != vec![0u8; 32] { VMAddress::new(tminter.clone().try_into().unwrap()) } else { g.operator.clone() };
+                    let caller = if scripted || r.chance(2, 3) { role_holder.clone() } else { anyone.clone() };
+                    let other = r.pick(&g.users).clone();
+                    let k = if scripted { 0 } else { r.below(9) };
+                    let (top, ep, args, esdt): (Value, &str, Vec<Vec<u8>>, Vec<(Vec<u8>, u64, BigUint)>) = match k {
+                        0 => (json!({"op": "transferMint", "a": hx(other.as_bytes())}), "transferMintership", vec![other.to_vec()], vec![]),
+                        1 => (json!({"op": "proposeMint", "a": hx(other.as_bytes())}), "proposeMintership", vec![other.to_vec()], vec![]),
+                        2 => (json!({"op": "acceptMint", "a": hx(other.as_bytes())}), "acceptMintership", vec![other.to_vec()], vec![]),
+                        3 => (json!({"op": "transferOp", "a": hx(other.as_bytes())}), "transferOperatorship", vec![other.to_vec()], vec![]),
+                        4 => (json!({"op": "addFL", "a": hx(other.as_bytes())}), "addFlowLimiter", vec![other.to_vec()], vec![]),
+                        5 => { let l = 5 + r.below(40); (json!({"op": "setLimit", "limit": l.to_string()}), "setFlowLimit", vec![big(l)], vec![]) }
+                        6 | 7 => { let v = 1 + r.below(50); (json!({"op": "mint", "a": hx(other.as_bytes()), "amount": v.to_string()}), "mint", vec![other.to_vec(), big(v)], vec![]) }
+                        _ => { let v = 1 + r.below(5); let e = vec![(ttok.clone().unwrap_or(tok.clone()), 0u64, bn(v))]; (json!({"op": "burn"}), "burn", vec![], e) }
+                    };
+                    let st = g.w.tx(&caller, &tm, ep, args, &bn(0), &esdt);
+                    let mut top = top; top["caller"] = json!(hx(caller.as_bytes())); top["now"] = json!(g.now); top["egld"] = json!("0");
+                    top["esdt"] = json!(esdt.iter().map(|(t, n, v)| json!([hx(t), n, v.to_string()])).collect::<Vec<_>>());
+                    g.steps.push(json!({"op": {"op": "tm", "tma": hx(tm.as_bytes()), "top": top, "caller": hx(caller.as_bytes()), "now": g.now}, "res": st.json}));
+                }
                 _ => { // deliver some pending asynchronous step
                     if g.pend.is_empty() { continue; }
                     let mut i = r.below(g.pend.len() as u64) as usize;
